@@ -845,6 +845,12 @@ def run(ctx):
         r5.check(ok, 'one-report-group-per-child-EOF', c.where, 'expected put(delnum) report() put(NUL) flush when the child\'s pipe is at end of file; found %s (eof-guard=%s)' % (seq[:5], eof))
     # ---- 7 the spawner collects every byte of the child's report
     r7 = rep.rule('C09.7-report-collection', 'R-TYPESTATE', 'spawn.c main (one slot, one round of the select loop, allocation failing up to twice): bytes read from a delivery child are appended to its collected report before the round ends, whatever the allocator does')
+    # qmail-remote's report is a sequence of NUL-terminated records, the last of which carries the verdict: the remote spawner must hand it on
+    # whole (qmail-remote bounds it itself); cutting it - as the local spawner does with qmail-local's free text - drops the terminator of the verdict record
+    g_ = db.unit('qmail-rspawn.c').globals.get('truncreport')
+    tv = g_.get('init', {}).get('v') if g_ and isinstance(g_.get('init'), dict) and g_['init'].get('k') == 'int' else (0 if g_ and not g_.get('init') else None)
+    r7.check(tv is not None and tv <= 100, 'rspawn-hands-the-whole-report-on(no-truncation)', 'qmail-rspawn.c',
+             'qmail-rspawn cuts collected reports at %s bytes (spawn.c truncates above 100): a long 4xx reply loses the NUL of its verdict record and is relayed as a permanent failure' % tv)
     smf = pr.fn('main', 'spawn.c')
     RH = RelayHooks()
     e7 = Engine(db, pr, RH, max_states=400000)
